@@ -290,3 +290,50 @@ def constant_marker_cells(X, genes, cell_ids, marker_genes):
             if len(vals) <= 1:
                 out.add(cid)
     return out
+
+
+# ---------------------------------------------------------------------------
+# deep cells in narrow integer dtypes
+# ---------------------------------------------------------------------------
+
+def deep_counts(rng, nprng, n, g, dtype):
+    """n x g matrix of non-negative integers representable in `dtype`, as
+    float64; most rows have a total above the dtype's maximum (a few genes
+    with counts near the maximum)"""
+    import numpy as np
+    hi = int(np.iinfo(np.dtype(dtype)).max)
+    X = nprng.integers(0, min(hi, 50) + 1, (n, g)).astype(np.float64)
+    for r in range(n):
+        if rng.random() < 0.85:
+            cols = rng.sample(range(g), rng.randint(2, min(g, 4)))
+            for c in cols:
+                X[r, c] = float(rng.randint(int(0.55 * hi), hi))
+    return X
+
+
+def deepen(rng, X, genes, markers, dtype):
+    """copy of the integer count matrix X (float64) with, in most cells, a few
+    genes raised to counts near the maximum of `dtype`, so that the cell total
+    exceeds the dtype's range; marker vectors stay non-constant"""
+    import numpy as np
+    hi = int(np.iinfo(np.dtype(dtype)).max)
+    X = np.minimum(np.asarray(X, dtype=np.float64), float(hi)).copy()
+    n, g = X.shape
+    for r in range(n):
+        if rng.random() < 0.85:
+            k = rng.randint(2, min(g, 4))
+            for c in rng.sample(range(g), k):
+                X[r, c] = float(rng.randint(int(0.55 * hi), hi))
+    col = {x: j for j, x in enumerate(genes)}
+    for _ in range(20):
+        changed = False
+        for v in markers.values():
+            idx = [col[x] for x in v if x in col]
+            for r in range(n):
+                if len(idx) >= 2 and len(set(X[r, idx])) <= 1:
+                    j = idx[0]
+                    X[r, j] = X[r, j] - 1.0 if X[r, j] >= hi else X[r, j] + 1.0
+                    changed = True
+        if not changed:
+            break
+    return X
